@@ -407,7 +407,7 @@ static void run_rows(vh::Trace& tr, int tier, int only, vh::Rng& rng, const std:
         for (int mode = 0; mode < 3; ++mode) {
           maybe_open();
           rec.fromfile_history(f, 1 + (k + mode) % 2, sw_from_bits(mask), mode != 0, mode == 1, tier > 0 ? 90 : 60,
-                               scratch + ".pm" + std::to_string(fi) + "_" + std::to_string(k) + "_" + std::to_string(mode));
+                               scratch + "_pm" + std::to_string(fi) + "_" + std::to_string(k) + "_" + std::to_string(mode));
         }
       }
       continue;
@@ -438,7 +438,13 @@ int main(int argc, char** argv) {
   const int tier = atoi(argv[3]);
   vh::Rng rng(vh::seed_from_env());
   if (mode == "sym") run_sym(tr, tier);
-  else if (mode == "rows") run_rows(tr, tier, argc > 4 ? atoi(argv[4]) : -1, rng, argv[2]);
+  else if (mode == "rows") {
+    // scratch prefix for matrix files next to the trace: no dots in the file name (the writer replaces "extensions")
+    std::string scratch = argv[2];
+    const size_t slash = scratch.find_last_of('/');
+    for (size_t i = slash == std::string::npos ? 0 : slash + 1; i < scratch.size(); ++i) if (scratch[i] == '.') scratch[i] = '_';
+    run_rows(tr, tier, argc > 4 ? atoi(argv[4]) : -1, rng, scratch);
+  }
   else if (mode == "count") tr.emit(vh::Json("Count").num("families", (long)families(tier).size()));
   else return 2;
   return 0;
